@@ -453,6 +453,44 @@ def h_hcb_general(env, m, canary=False, complex_ints=False):
                          f"HCB {m} orbitals, integrals with 4-fold symmetry only: map(H)|pairs {k}> = H|pairs {k}> within the paired space")
 
 
+def h_hcb_spin(env, m, which):
+    """HCB on operators WITHOUT spin symmetry (the spin operators S_z, S^2 requested through VQESolver.operator_expectation, or
+    an arbitrary normal-ordered one- plus two-body operator with independent symbolic coefficients): on the paired space the
+    mapped operator acts like the seniority-zero block of the fermionic operator"""
+    from symx import shim
+    from tangelo.toolboxes.qubit_mappings.mapping_transform import fermion_to_qubit_mapping
+    n = 2 * m
+    if which == "generic":
+        terms = {(): env.real("E0", -2, 2)}
+        for p, q in itertools.product(range(n), repeat=2):
+            terms[((p, 1), (q, 0))] = env.real(f"h{p}{q}", -2, 2)
+        for (p, q), (r, s_) in itertools.product(itertools.combinations(range(n - 1, -1, -1), 2), repeat=2):
+            terms[((p, 1), (q, 1), (r, 0), (s_, 0))] = env.real(f"g{p}{q}{r}{s_}", -2, 2)
+        H = build_fermion_op(terms)
+    else:
+        from tangelo.toolboxes.ansatz_generator import fermionic_operators as fo
+        H = {"N": fo.number_operator, "Sz": fo.spinz_operator, "S2": fo.spin2_operator}[which](m, up_then_down=False)
+        terms = dict(H.terms)
+    old = shim.ALLOC_OBJECT
+    shim.ALLOC_OBJECT = bool(env.symbolic)
+    try:
+        q = fermion_to_qubit_mapping(H, "HCB", n_spinorbitals=n).terms
+    finally:
+        shim.ALLOC_OBJECT = old
+    for k in itertools.product((0, 1), repeat=m):
+        f = tuple(x for ki in k for x in (ki, ki))
+        got = PB.pauli_apply(q, k + (0,) * (max([i for w in q for i, _ in w] + [m - 1]) + 1 - m), exact=env.symbolic)
+        got = {g[:m]: v for g, v in got.items()}
+        exp = {}
+        for g, v in fock.apply_operator(terms, f).items():
+            if all(g[2 * i] == g[2 * i + 1] for i in range(m)):
+                kk = tuple(g[2 * i] for i in range(m))
+                exp[kk] = exp.get(kk, 0) + v
+        keys = sorted(set(got) | set(exp))
+        env.check_vec_eq([got.get(x, 0) for x in keys], [exp.get(x, 0) for x in keys],
+                         f"HCB {m} orbitals, operator '{which}' without spin symmetry: map(Op)|pairs {k}> = seniority-zero block of Op|pairs {k}>")
+
+
 def h_comb(env, m, na, nb, canary=False):
     import math
     from symx import shim
@@ -600,6 +638,9 @@ def shapes(tier, seed):
         out.append(Shape(f"hcb/m{m}", h_hcb, dict(m=m), modules=MODS))
         out.append(Shape(f"hcb4fold/m{m}", h_hcb_general, dict(m=m), modules=MODS))
         out.append(Shape(f"hcb4fold-complex/m{m}", h_hcb_general, dict(m=m, complex_ints=True), modules=MODS))
+    for which, ms in (("N", (2, 3)), ("Sz", (2, 3)), ("S2", (2, 3)), ("generic", (2,))):
+        for m in ms:
+            out.append(Shape(f"hcb-spin/{which}/m{m}", h_hcb_spin, dict(m=m, which=which), modules=MODS))
     out.append(Shape("canary/hcb", h_hcb, dict(m=2, canary=True), modules=MODS, canary=True))
     # (f)  every (n_alpha, n_beta) with at least two configurations
     import math
